@@ -80,16 +80,15 @@ Proof.
   split; [vm_compute; repeat constructor; simpl; intuition discriminate|]. vm_compute. reflexivity.
 Qed.
 
-(* "when ares_cancel() returns every request made before it has completed" does NOT hold for the
-   code as it is (also with all fixes): a query waiting in ares_cancel's private list can be
-   completed with a connection error by a callback of an earlier cancelled request, and a
-   gethostbyaddr / getnameinfo configured with two DNS lookups then goes on with a new query that
-   survives the cancellation.  The witness is the LC trace of the real library (corpus/C01,
-   finding in findings/C01.json); the monitor reports it as callback-missing-at-cancel. *)
-Theorem C01_complete_at_cancel_refuted :
-  exists cf fuel h final tr, cf_fix cf = all_fixed /\ run cf fuel h final = Ok tr /\ ~ complete_at_cancel tr.
+(* before fixes/C01-cancel-complete.patch "when ares_cancel() returns every request made before it
+   has completed" did not hold: a query waiting in ares_cancel's private list could be completed
+   with a connection error by a callback of an earlier cancelled request, and a gethostbyaddr /
+   getnameinfo configured with two DNS lookups then went on with a new query that survived the
+   cancellation.  The witness is the LC trace of the real library without that fix. *)
+Theorem C01_pinned_cancel_incomplete_refuted :
+  exists cf fuel h final tr, cf_fix cf = without_cancelmark /\ run cf fuel h final = Ok tr /\ ~ complete_at_cancel tr.
 Proof. exact cancel_incomplete. Qed.
-Print Assumptions C01_complete_at_cancel_refuted.
+Print Assumptions C01_pinned_cancel_incomplete_refuted.
 
 (* ---- the pinned tree does not satisfy the property: one witness per defect ---- *)
 Theorem C01_pinned_cancel_in_callback_refuted :
